@@ -30,6 +30,7 @@ def make_scenarios(ctx, count):
         s.add("NOW %d" % now0)
         ops = []
         m = 0
+        idle_hellos = [0]
         timed = i % 3 != 2              # no time passes inside port calls: the monitor can follow the clock itself
         crowd = 0
         if i % 4 == 1:
@@ -51,6 +52,14 @@ def make_scenarios(ctx, count):
         def ticks(n, step):
             s.add("KR 0 %d %d" % (n, step))
             ops.append(("KR", n, step))
+        if rng.random() < 0.3:
+            # other stations' Hellos are on the wire before anybody enumerates here (somebody else's mapping run): they belong
+            # to no block of ours
+            for _ in range(rng.randint(1, 6)):
+                frame(G.f_hello(rng, net, tos=rng.choice([0, 0, 1])))
+            if rng.random() < 0.5:
+                ticks(rng.choice([1, 3]), 100)
+            idle_hellos[0] += 1
         # a session that is not complete keeps the enumeration engine in its pausing state
         frame(G.f_discover(rng, net, m=m, tos=0, ack=False, nstations=rng.choice([1, 2]), gen=1))
         load = rng.choice(["light", "medium", "heavy", "mixed"])
@@ -88,6 +97,10 @@ def make_scenarios(ctx, count):
                 nt = rng.choice([0, 0, 0, 1, 2, 8])          # usually at once: the enumeration engine is still waiting
                 if nt:
                     ticks(nt, 100)
+                if nt >= 2 and rng.random() < 0.5:
+                    for _ in range(rng.randint(1, 4)):          # heard while the engine is idle again
+                        frame(G.f_hello(rng, net))
+                    idle_hellos[0] += 1
                 frame(G.f_discover(rng, net, m=(m + 1) % 3, tos=0, ack=False, nstations=1, gen=2))
             elif r < 0.13:
                 frame(G.f_reset(rng, net, m=m))
@@ -95,7 +108,7 @@ def make_scenarios(ctx, count):
                 frame(G.f_discover(rng, net, m=m, tos=0, ack=False, nstations=1, gen=rng.choice([1, 3])))
             elif r < 0.2:
                 frame(G.f_probe(rng, net))
-        s.meta = dict(ops=ops, now0=now0, timed=timed, crowd=crowd, long_run=long_run)
+        s.meta = dict(ops=ops, now0=now0, timed=timed, crowd=crowd, long_run=long_run, idle_hellos=idle_hellos[0])
         scns.append(s)
     return scns
 
@@ -244,6 +257,8 @@ def monitor(scn, sobj, rep, sf, ck):
                     if sobj.meta.get("crowd"):
                         seen.add("the-same-beside-eight-or-more-complete-sessions")
             prev = cur
+    if sobj.meta.get("idle_hellos") and nontriv_blocks:
+        seen.add("hellos-heard-while-the-engine-was-idle")
     if sobj.meta.get("long_run") and nontriv_blocks >= 150:
         seen.add("one-enumeration-of-more-than-200-blocks")
     rep.evaluations += blocks
@@ -269,6 +284,7 @@ def run(ctx):
     c = rep.counters
     rep.need("history_block_ends", c.get("history_block_ends", 0), 2000)
     rep.need("history_block_ends_with_formula", c.get("history_block_ends_with_formula", 0), 500)
+    rep.need("hellos-heard-while-the-engine-was-idle", c.get("reach:hellos-heard-while-the-engine-was-idle", 0), 50)
     rep.need("one-enumeration-of-more-than-200-blocks", c.get("reach:one-enumeration-of-more-than-200-blocks", 0), 10)
     for name in ("tick-after-a-block-with-hellos-while-an-incomplete-session-is-live", "the-same-beside-eight-or-more-complete-sessions"):
         rep.need(name, c.get("reach:" + name, 0), 20)
